@@ -19,11 +19,11 @@ claim("C14", "threshold/constant table extraction from the CFG of flushFrame and
       TB, "DESIGN.md §3 C14")
 
 claim("C15", "static call graph reachability (panic sites), dominance of index uses by error tests, who-may-write field rules, threshold extraction, monotonicity of the sticky-error field on go/cfg",
-      "Static rules over webtransport/conn.go read paths: the only panic reachable from NextReader/ReadMessage/messageReader.Read is the documented repeated-read guard (>=1000); every use of header bytes is dominated by the err==nil edge of its read(n) and fits in n; readRemaining is written only by setReadRemaining which rejects negatives and whose callers propagate the error; the reader clamps to readRemaining and skips leftovers; the read limit (accumulate, overflow test, limit test → CloseWithError+ErrReadLimit) dominates every successful data-frame return; readErr is monotone (first failure or EOF→unexpected-EOF refinement) and returned by the error exit; stale readers are inert and every message gets a freshly allocated reader object (the identity test depends on it). Totality over every byte stream as a run-time fact is not decided.",
+      "Static rules over webtransport/conn.go read paths: the only panic reachable from NextReader/ReadMessage/messageReader.Read is the documented repeated-read guard (>=1000); every use of header bytes is dominated by the err==nil edge of its read(n) and fits in n; readRemaining is written only by setReadRemaining which rejects negatives and whose callers propagate the error; the reader clamps to readRemaining and skips leftovers; the read limit (accumulate, overflow test, limit test → CloseWithError+ErrReadLimit) dominates every successful data-frame return; readErr is monotone (first failure or EOF→unexpected-EOF refinement) and returned by the error exit; no buffer is allocated from a declared length; stale readers are inert and every message gets a freshly allocated reader object (the identity test depends on it). Totality over every byte stream as a run-time fact is not decided.",
       TB, "DESIGN.md §3 C15")
 
 claim("C20", "must-held-lock dataflow per field access, who-may-call for lock-free helpers, parameter-aliasing rules on append/store/return, two-sided bound facts by edge dominance, emitter shape rules",
-      "Static rules over types/slice.go, set.go, map.go, events.go, utils/parameter-bag.go, yeast.go, base64id.go: every access of a guarded field is under the right (R)W lock and lock-free helpers are only called with it held (Map: dirty/misses/read.Store/*Locked under mu); no Slice method stores, appends onto or returns caller-shared storage; every parameter-dependent index/slice bound/make length is bounded on both sides before use; no nil entry can enter a listener slice, Emit iterates a snapshot once per entry, Once runs inside sync.Once, RemoveListener removes exactly one; ids embed all 64 bits of an atomic counter in URL-safe base64 and Yeast is one critical section. Linearizability of concurrent histories is not decided (lock discipline is the structural necessary condition).",
+      "Static rules over types/slice.go, set.go, map.go, events.go, utils/parameter-bag.go, yeast.go, base64id.go: every access of a guarded field is under the right (R)W lock and lock-free helpers are only called with it held (Map: dirty/misses/read.Store/*Locked under mu; every slow path re-loads the snapshot under the lock and decides on the re-loaded one); the queue primitives Push/Shift/Pop/clear have their sequence shape; no Slice method stores, appends onto or returns caller-shared storage; every parameter-dependent index/slice bound/make length is bounded on both sides before use; no nil entry can enter a listener slice, Emit iterates a snapshot once per entry, Once runs inside sync.Once, RemoveListener removes exactly one; ids embed all 64 bits of an atomic counter in URL-safe base64 and Yeast is one critical section. Linearizability of concurrent histories is not decided (lock discipline is the structural necessary condition).",
       TB, "DESIGN.md §3 C20")
 
 claim("C19", "select-arm/polarity table extraction from the AST and CFG of utils/timer.go, create/cancel pairing over resolved call sites, nil-holder licence by edge dominance",
@@ -67,7 +67,7 @@ claim("C08", "sibling gate agreement by edge dominance, who-may-install-a-transp
       TB, "DESIGN.md §3 C08")
 
 claim("C09", "call-graph reachability from the client-byte entry points (static calls + CHA + the repo's listener and timer-callback wiring) for the panic allow-list, interprocedural must-held-lock rule for connection writes, nil-safety rules, emitter/listener signature agreement by type assignability, answer-or-park path rule, reader-loop exit rule",
-      "Crash and hang clauses only: the only explicit panics reachable from client input are the allow-listed webtransport guards (made unreachable by the rule that every connection write holds the transport mutex) and the documented repeated-read guard; no Timer method on a nil holder; JSON decode targets cannot be nil-dereferenced; every unchecked type assertion / index in a listener is matched by all Emit sites of that event (argument count and assignable type) and errorContext messages are strings; every other single-value type assertion in the repository is a frozen site whose dynamic type the repository fixes (none on packet data); every path of the polling/HTTP request functions answers, parks or delegates; reader goroutines leave their loop on a read error; request bodies and frames are read through limits. Work proportional to input (the known exponential spin is in the external parser), run-time panics inside dependencies and isolation under load are not decided.",
+      "Crash and hang clauses only: the only explicit panics reachable from client input are the allow-listed webtransport guards (made unreachable by the rule that every connection write holds the transport mutex) and the documented repeated-read guard; no Timer method on a nil holder; JSON decode targets cannot be nil-dereferenced; every unchecked type assertion / index in a listener is matched by all Emit sites of that event (argument count and assignable type) and errorContext messages are strings; every other single-value type assertion in the repository is a frozen site whose dynamic type the repository fixes (none on packet data); no dereference on an edge where the code's own nil test has just failed; every close of a field channel is behind a won CompareAndSwap (the request context's done channel only in Flush); every path of the polling/HTTP request functions answers, parks or delegates; reader goroutines leave their loop on a read error; request bodies and frames are read through limits. Work proportional to input (the known exponential spin is in the external parser), run-time panics inside dependencies and isolation under load are not decided.",
       TB, "DESIGN.md §3 C09")
 claim("C10", "taint-style who-may-read rule for request bodies, dominance of body reads by the declared-length test, must-precede of SetReadLimit before the first read, limit-enforcement path rule in advanceFrame, resolved option-accessor chains",
       "Static rules: every use of a request body other than Close goes through http.MaxBytesReader/LimitReader with a limit from MaxHttpBufferSize() and overflow is answered 413; a declared oversize is refused with 413 before reading; the gorilla and WebTransport connections get SetReadLimit(Opts().MaxHttpBufferSize()) before the first read and the limited Conn is the one used; advanceFrame's every successful data-frame return passes the accumulate/overflow/limit tests (violation edge closes the session and returns ErrReadLimit); the reader clamps to the declared length; transports receive their limit from the same option accessor that the open packet advertises. Byte/character accounting, 'limit plus a constant' as a number and gorilla's own enforcement are not decided.",
